@@ -27,7 +27,7 @@ from harness.common import hx, exc_name, VERIF
 PROPERTY = 'C12'
 LEAN_TARGETS = ['PxProofs.C12']
 THEOREMS = [
-    'Px.Reverse.C12_no_route_404', 'Px.Reverse.C12_404_packet', 'Px.Reverse.C12_events_noop',
+    'Px.Reverse.C12_no_route_404', 'Px.Reverse.C12_404_packet', 'Px.Reverse.C12_bad_path_400', 'Px.Reverse.C12_events_noop',
     'Px.Reverse.C12_selection', 'Px.Reverse.C12_hits_sound',
     'Px.Reverse.C12_target', 'Px.Reverse.C12_connect_host', 'Px.Reverse.C12_target_static', 'Px.Reverse.C12_default_ports',
     'Px.Reverse.C12_forwarded_request', 'Px.Reverse.C12_forwarded_path',
@@ -485,11 +485,11 @@ def in_quantifier(case):
     m = case.get('meta')
     if not m or not m.get('valid') or case['connect'] != 'ok':
         return False
-    if case.get('events') and not _emit_ok(m):
-        return False
     try:
         path_text = bytes.fromhex(m['target']).decode('utf-8')
     except UnicodeDecodeError:
+        return True         # answered with 400 before events and routing, whatever the table is
+    if case.get('events') and not _emit_ok(m):
         return False
     return _route_candidates(case, path_text)[4]
 
@@ -534,7 +534,18 @@ def oracle(case):
     o = _drive(case)
     if o['skip']:
         return 'valid-web-request-not-served-' + o['skip']
-    path_text = bytes.fromhex(m['target']).decode('utf-8')
+    try:
+        path_text = bytes.fromhex(m['target']).decode('utf-8')
+    except UnicodeDecodeError:
+        # a path that is not UTF-8 names no route: 400, never an outbound connection (eb09b1e)
+        from proxy.http.responses import BAD_REQUEST_RESPONSE_PKT
+        if o['connects'] or o['upstream_read']:
+            return 'undecodable-path-caused-outbound-connection'
+        if o['exc'] is not None:
+            return 'undecodable-path-raised-' + str(o['exc'])
+        if o['client_read'] != bytes(BAD_REQUEST_RESPONSE_PKT) or not o['final_teardown']:
+            return 'undecodable-path-not-answered-by-400'
+        return None
     lits, cands, anym, yields, _ = _route_candidates(case, path_text)
     if not anym:
         if o['connects'] or o['upstream_read']:
